@@ -8,6 +8,7 @@
 //!   json docs <n> <L> <maxlen> grammar documents, systematic families, single-edit mutants -> ndjson log
 //!   json ser <n> <per> <every> random Values, serialize / serialize_pretty(0..8): all ten outputs are re-parsed here;
 //!                              of every <every>-th value <per> outputs are logged (ndjson) for TLC; failures always
+//!   json idx <n>               get / get_mut / Index / IndexMut on parsed documents -> ndjson log (extension, not part of C13)
 //!   json log <L>               stdin: {"s":[cps]} lines -> one doc record each (replay, attribution of mismatches)
 use hv::util::*;
 use humphrey_json::Value;
@@ -151,7 +152,20 @@ fn has_overflow(d: &J) -> bool {
     }
 }
 
-struct Acc { v: J, d: usize, lone: bool }
+/// RFC 8259 section 4: behaviour for non-unique names is unpredictable -> the value of such a text is not compared
+fn has_dup_keys(d: &J) -> bool {
+    let kids = d["a"].as_array().map(|a| a.iter().any(has_dup_keys)).unwrap_or(false);
+    match d["t"].as_str().unwrap_or("") {
+        "obj" => {
+            let ks: Vec<Vec<u32>> = d["k"].as_array().map(|a| a.iter().map(u32s).collect()).unwrap_or_default();
+            kids || (0..ks.len()).any(|i| (0..i).any(|j| ks[i] == ks[j]))
+        }
+        "arr" => kids,
+        _ => false,
+    }
+}
+
+struct Acc { v: J, d: usize, lone: bool, dup: bool }
 
 #[derive(Default)]
 struct EnumStats { strings: u64, evals: u64, accepted_seen: u64, mism: u64, first: Vec<J>, samples: Vec<J>, either: u64 }
@@ -161,7 +175,7 @@ fn check_one(toks: &[u8], s: &str, acc: &HashMap<Vec<u8>, Acc>, limit: usize, st
     let e = acc.get(toks);
     if e.is_some() { st.accepted_seen += 1; }
     let either = e.map_or(false, |a| a.lone || has_overflow(&a.v));
-    if either { st.either += 1; }
+    if either || e.map_or(false, |a| a.dup) { st.either += 1; }
     for d in [None, Some(0usize), Some(1), Some(2), Some(3)] {
         st.evals += 1;
         let lim = d.unwrap_or(limit);
@@ -171,7 +185,7 @@ fn check_one(toks: &[u8], s: &str, acc: &HashMap<Vec<u8>, Acc>, limit: usize, st
         let mut problem: Option<String> = None;
         match (&got, e) {
             (Ok(v), Some(a)) if expect_ok => {
-                if !a.lone {
+                if !a.lone && !a.dup {
                     let mut over = false;
                     if let Err(why) = same_denotation(v, &a.v, &mut over) { problem = Some(format!("value: {}", why)); }
                 }
@@ -221,7 +235,8 @@ fn do_enum(limit: usize) {
         } else if v.get("t").is_some() {
             let toks: Vec<u8> = v["t"].as_array().unwrap().iter().map(|x| x.as_u64().unwrap() as u8).collect();
             if toks.len() >= 2 { nontrivial += 1; }
-            acc.insert(toks, Acc { v: v["v"].clone(), d: v["d"].as_u64().unwrap() as usize, lone: v["lone"].as_bool().unwrap() });
+            let dup = has_dup_keys(&v["v"]);
+            acc.insert(toks, Acc { v: v["v"].clone(), d: v["d"].as_u64().unwrap() as usize, lone: v["lone"].as_bool().unwrap(), dup });
         }
     }
     if alpha.is_empty() { eprintln!("no header line"); std::process::exit(2); }
@@ -663,6 +678,69 @@ fn do_ser(n: usize, per: usize, every: usize) {
         "equal_but_not_bit_identical": bits_inexact, "variants": {"null": variants[0], "bool": variants[1], "number": variants[2], "string": variants[3], "array": variants[4], "object": variants[5]}}));
 }
 
+// ------------------------------------------------------------------------------------------------
+// idx: Value::get / get_mut / Index / IndexMut on parsed documents -> log for Trace_Json8259 (extension)
+// ------------------------------------------------------------------------------------------------
+fn do_idx(n: usize) {
+    let mut rng = Rng::from_env();
+    let mut logged = 0u64;
+    let mut docs = 0u64;
+    while docs < n as u64 {
+        // containers at the top, no unpaired surrogates (they are rejected by the parser anyway)
+        let mut s = String::new();
+        let dense = rng.chance(1, 4);
+        let k = rng.below(10);
+        if k < 5 {
+            s.push('{');
+            let m = rng.below(5);
+            for i in 0..m {
+                if i > 0 { s.push(','); }
+                s.push_str(*rng.pick(&["\"a\"", "\"b\"", "\"\"", "\"k\\u00e9\"", "\"a\""]));
+                s.push(':');
+                gen_value(&mut rng, 2, dense, false, &mut s);
+            }
+            s.push('}');
+        } else if k < 9 {
+            s.push('[');
+            let m = rng.below(5);
+            for i in 0..m { if i > 0 { s.push(','); } gen_value(&mut rng, 2, dense, false, &mut s); }
+            s.push(']');
+        } else {
+            gen_value(&mut rng, 0, dense, false, &mut s);
+        }
+        if s.chars().count() > 200 { continue; }
+        let v = match call_parse(&s, None) { Ok(v) => v, Err(_) => continue };
+        docs += 1;
+        let keys: [&str; 5] = ["a", "b", "", "k\u{e9}", "zz"];
+        for _ in 0..4 {
+            let key = *rng.pick(&keys);
+            let idx = rng.below(6);
+            let op = *rng.pick(&["get_key", "get_idx", "index_key", "index_idx", "get_mut_key", "get_mut_idx", "assign_key"]);
+            let mut w = v.clone();
+            let (some, panic, res): (bool, bool, Option<Value>) = match op {
+                "get_key" => { let r = w.get(key).cloned(); (r.is_some(), false, r) }
+                "get_idx" => { let r = w.get(idx).cloned(); (r.is_some(), false, r) }
+                "index_key" => { let r = w[key].clone(); (true, false, Some(r)) }
+                "index_idx" => { let r = w[idx].clone(); (true, false, Some(r)) }
+                "get_mut_key" => { let r = w.get_mut(key).map(|x| x.clone()); (r.is_some(), false, r) }
+                "get_mut_idx" => { let r = w.get_mut(idx).map(|x| x.clone()); (r.is_some(), false, r) }
+                _ => {
+                    let mut w2 = w.clone();
+                    let key2 = key.to_string();
+                    match std::panic::catch_unwind(move || { w2[key2.as_str()] = Value::Bool(true); w2 }) {
+                        Ok(after) => { w = after; (true, false, None) }
+                        Err(_) => (false, true, None),
+                    }
+                }
+            };
+            logged += 1;
+            out_line(&json!({"k": "idx", "in": cps(&s), "op": op, "key": cps(key), "n": idx, "some": some, "panic": panic,
+                             "res": res.as_ref().map(tree).unwrap_or(json!([])), "after": tree(&w)}));
+        }
+    }
+    eprintln!("{}", json!({"summary": true, "documents": docs, "records": logged}));
+}
+
 /// stdin: {"s":[code points]} lines -> one doc record each (used for replay and for attributing mismatches)
 fn do_log(limit: usize) {
     let mut count = 0u64;
@@ -683,6 +761,7 @@ fn main() {
             Some("docs") => do_docs(a[2].parse().unwrap(), a[3].parse().unwrap(), a[4].parse().unwrap()),
             Some("ser") => do_ser(a[2].parse().unwrap(), a[3].parse().unwrap(), a[4].parse().unwrap()),
             Some("log") => do_log(a[2].parse().unwrap()),
+            Some("idx") => do_idx(a[2].parse().unwrap()),
             _ => { eprintln!("usage: json probe|enum|docs|ser|log ..."); std::process::exit(2) }
         }
     }).unwrap();
